@@ -198,6 +198,9 @@ def make_layout(rnd: random.Random, shape=None, nmacros=None, rich=True):
     g.labels_defined = []
     prog = g._program(rnd.randint(1, 2))
     lay.files[main]["routines"] = prog["routines"]
+    if lay.files[main]["macros"] and rnd.random() < 0.5:
+        from vf.gen import interleave
+        lay.files[main]["order"] = interleave(rnd, len(lay.files[main]["macros"]), len(prog["routines"]))
     if not any(_has_call(b) for _, b in prog["routines"] if b) and g.c.macros:
         h, b = lay.files[main]["routines"][0]
         lay.files[main]["routines"][0] = (h, [g.macro_call()] + list(b or []))
